@@ -4,6 +4,7 @@ Same subject and quantification as C01 (`Props/C01.lean`).
 -/
 import PymaVerif.Proofs.Accepted
 import PymaVerif.Proofs.Witness
+import PymaVerif.Proofs.LevelsThm
 
 namespace Pyma
 namespace Props
@@ -32,6 +33,13 @@ theorem C02_adjoint_entry (h : p.Accepted) (h2 : (2 : K) ≠ 0) (m : Fin p.npara
 theorem C02_Htilde_hermitian (h : p.Accepted) (h2 : (2 : K) ≠ 0) : star (p.sr "H_tilde") = p.sr "H_tilde" :=
   Problem.C02_Ht_herm h h2
 
+/-- **C02** without the transitivity clause of `Accepted` (it is a theorem of the model of the repaired code, see `C01_kept_pattern_transitive`): unitarity, the
+adjoint and the Hermiticity of `H̃` also when levels are equal within `atol` only through a chain of neighbours -/
+theorem C02_chains_of_close_levels (hev : AbsLtEven K) (h : p.AcceptedCore) (h2 : (2 : K) ≠ 0) :
+    p.sr "U†" * p.sr "U" = 1 ∧ p.sr "U" * p.sr "U†" = 1 ∧ star (p.sr "U") = p.sr "U†" ∧ star (p.sr "H_tilde") = p.sr "H_tilde" :=
+  ⟨(C02_unitary (h.accepted hev) h2).1, (C02_unitary (h.accepted hev) h2).2, C02_adjoint (h.accepted hev) h2, C02_Htilde_hermitian (h.accepted hev) h2⟩
+
+example : wchain.sr "U†" * wchain.sr "U" = 1 := (C02_chains_of_close_levels absLtEven_rat wchain_core (by norm_num)).1
 example : w2.sr "U†" * w2.sr "U" = 1 ∧ w2.sr "U" * w2.sr "U†" = 1 := C02_unitary w2_accepted (by norm_num)
 example : star (wd.sr "H_tilde") = wd.sr "H_tilde" := C02_Htilde_hermitian wd_accepted (by norm_num)
 
